@@ -233,6 +233,26 @@ def judge(family, case, rec):
         rec.exception_violation(key, family, case, "LGANM.sample(population=True) raised %s" % type(e).__name__, e)
         return
     rec.count("judged")
+    if touched and (p + len(touched)) % 3 == 1:
+        # parameter sweep in steps far below print precision: the same model is first asked about parameters that differ from
+        # the judged ones in the 11th significant digit only
+        try:
+            def nudge(dd):
+                return {j: ((v[0] * (1 + 1e-11) + 1e-13, v[1] * (1 - 1e-11)) if isinstance(v, tuple) else v) for j, v in dd.items()}
+            kw0 = {}
+            for name, dd, form in (("do_interventions", d["do"], forms[0]), ("noise_interventions", d["noise"], forms[1]),
+                                   ("shift_interventions", d["shift"], forms[2])):
+                if form == "dict":
+                    kw0[name] = nudge(dd)
+                elif form != "omitted":
+                    kw0[name] = _arg(dd, form)
+            model.sample(population=True, **kw0)
+            model.sample(2, **kw0)
+            dist = model.sample(population=True, **kw)
+            rec.count("history:near-equal-parameter-sweep")
+        except Exception as e:
+            rec.exception_violation("C01:exception-on-sweep-" + type(e).__name__, family, case, "a parameter sweep on the same model raised", e)
+            return
     if case.get("W_as_list") is None and (p + len(touched)) % 3 == 0:
         # history: the caller rescales the distribution he was given (his own object), asks the same model something else,
         # then repeats the first question - the answer must not have changed
